@@ -7,7 +7,7 @@ use serde_json::json;
 use std::collections::BTreeMap;
 use std::sync::Arc;
 use tensor_chain::block::{Block, BlockHeader};
-use tensor_chain::network::{AppendEntries, AppendEntriesResponse, LogEntry, MemoryTransport, Message, RequestVote, RequestVoteResponse};
+use tensor_chain::network::{AppendEntries, AppendEntriesResponse, LogEntry, MemoryTransport, Message, PeerConfig, RequestVote, RequestVoteResponse, Transport};
 use tensor_chain::raft::{RaftConfig, RaftNode, RaftState};
 use tensor_store::SparseVector;
 
@@ -30,6 +30,11 @@ enum Op {
     Propose,
     /// a response carrying a higher term (forces step-down and a term record)
     HigherTermResponse,
+    /// a leader's snapshot (our log + `n` further entries of the current term, produced by a real leader node's
+    /// create_snapshot) is installed; the entries count as acknowledged once a later AppendEntries succeeds
+    Install { n: u8 },
+    /// election timer fires on the async path while the transport refuses the broadcast
+    ElectAsyncSendFails,
 }
 
 #[derive(Clone, Debug, Default)]
@@ -40,10 +45,14 @@ struct Model {
     votes: BTreeMap<u64, String>,
     /// acknowledged log: (term, block height tag) per index
     log: Vec<(u64, u64)>,
+    /// log installed from a snapshot and not yet acknowledged to a leader: a restart may come back with the
+    /// acknowledged log or with (a durable prefix of) this one
+    installed: Option<Vec<(u64, u64)>>,
 }
 
 struct Live {
     node: RaftNode,
+    transport: Arc<FlakyTransport>,
     next_tag: u64,
 }
 
@@ -55,12 +64,66 @@ fn node_log(node: &RaftNode) -> Vec<(u64, u64)> {
     entries.iter().map(|e| (e.term, e.block.header.height)).collect()
 }
 
+/// transport of the node under test: delivers nowhere; `fail` makes send/broadcast return an error
+struct FlakyTransport {
+    id: String,
+    fail: std::sync::atomic::AtomicBool,
+}
+#[async_trait::async_trait]
+impl Transport for FlakyTransport {
+    async fn send(&self, _to: &String, _msg: Message) -> tensor_chain::error::Result<()> {
+        if self.fail.load(std::sync::atomic::Ordering::SeqCst) {
+            return Err(tensor_chain::error::ChainError::NetworkError("injected send failure".into()));
+        }
+        Ok(())
+    }
+    async fn broadcast(&self, _msg: Message) -> tensor_chain::error::Result<()> {
+        if self.fail.load(std::sync::atomic::Ordering::SeqCst) {
+            return Err(tensor_chain::error::ChainError::NetworkError("injected broadcast failure".into()));
+        }
+        Ok(())
+    }
+    async fn recv(&self) -> tensor_chain::error::Result<(String, Message)> {
+        std::future::pending().await
+    }
+    async fn connect(&self, _peer: &PeerConfig) -> tensor_chain::error::Result<()> {
+        Ok(())
+    }
+    async fn disconnect(&self, _peer_id: &String) -> tensor_chain::error::Result<()> {
+        Ok(())
+    }
+    fn peers(&self) -> Vec<String> {
+        vec!["n2".into(), "n3".into()]
+    }
+    fn local_id(&self) -> &String {
+        &self.id
+    }
+}
+fn block_on<F: std::future::Future>(f: F) -> F::Output {
+    use std::task::{Context, Poll, RawWaker, RawWakerVTable, Waker};
+    fn noop(_: *const ()) {}
+    fn clone(_: *const ()) -> RawWaker {
+        RawWaker::new(std::ptr::null(), &VTABLE)
+    }
+    static VTABLE: RawWakerVTable = RawWakerVTable::new(clone, noop, noop, noop);
+    let waker = unsafe { Waker::from_raw(RawWaker::new(std::ptr::null(), &VTABLE)) };
+    let mut cx = Context::from_waker(&waker);
+    let mut f = std::pin::pin!(f);
+    match f.as_mut().poll(&mut cx) {
+        Poll::Ready(v) => v,
+        Poll::Pending => panic!("harness future was not ready immediately"),
+    }
+}
+
 struct RaftSubject;
 
 impl RaftSubject {
     fn open_node(dir: &str) -> Result<RaftNode, String> {
-        let transport = Arc::new(MemoryTransport::new(ME.to_string()));
-        RaftNode::with_wal(ME.to_string(), vec!["n2".into(), "n3".into()], transport, RaftConfig::default(), format!("{dir}/raft.wal")).map_err(|e| e.to_string())
+        Self::open_node_t(dir).map(|(n, _)| n)
+    }
+    fn open_node_t(dir: &str) -> Result<(RaftNode, Arc<FlakyTransport>), String> {
+        let transport = Arc::new(FlakyTransport { id: ME.to_string(), fail: std::sync::atomic::AtomicBool::new(false) });
+        RaftNode::with_wal(ME.to_string(), vec!["n2".into(), "n3".into()], transport.clone(), RaftConfig::default(), format!("{dir}/raft.wal")).map(|n| (n, transport)).map_err(|e| e.to_string())
     }
 }
 
@@ -72,9 +135,9 @@ impl Subject for RaftSubject {
         "c10"
     }
     fn open(&self, dir: &str, _epoch: usize) -> Result<Live, String> {
-        let node = Self::open_node(dir)?;
+        let (node, transport) = Self::open_node_t(dir)?;
         let next_tag = 1000 + node_log(&node).len() as u64 * 10;
-        Ok(Live { node, next_tag })
+        Ok(Live { node, transport, next_tag })
     }
     fn initial_model(&self) -> Model {
         Model::default()
@@ -115,6 +178,7 @@ impl Subject for RaftSubject {
                     m.term = m.term.max(r.term);
                     if r.success {
                         m.log = node_log(node);
+                        m.installed = None;
                     }
                 }
             }
@@ -146,6 +210,36 @@ impl Subject for RaftSubject {
                 node.handle_message(&"n3".to_string(), &msg);
                 m.term = m.term.max(node.current_term());
             }
+            Op::Install { n } => {
+                // a real leader node holding our log plus n entries produces the snapshot
+                let mut entries: Vec<LogEntry> = node_log(node).iter().enumerate().map(|(i, (t, tag))| LogEntry::new(*t, i as u64 + 1, block(*tag))).collect();
+                let term = cur.max(1);
+                for _ in 0..*n {
+                    live.next_tag += 1;
+                    entries.push(LogEntry::new(term, entries.len() as u64 + 1, block(live.next_tag)));
+                }
+                if !entries.is_empty() {
+                    let leader = RaftNode::with_state("n3".to_string(), vec![ME.to_string(), "n2".into()], Arc::new(MemoryTransport::new("n3".to_string())), RaftConfig::default(), term, None, entries.clone());
+                    leader.set_finalized_height(entries.len() as u64);
+                    if let Ok((meta, data)) = leader.create_snapshot() {
+                        if node.install_snapshot(meta, &data).is_ok() {
+                            m.term = m.term.max(node.current_term());
+                            m.installed = Some(node_log(node));
+                        }
+                    }
+                }
+            }
+            Op::ElectAsyncSendFails => {
+                live.transport.fail.store(true, std::sync::atomic::Ordering::SeqCst);
+                let _ = block_on(node.start_election_async());
+                live.transport.fail.store(false, std::sync::atomic::Ordering::SeqCst);
+                // whatever term the node now reports and acts in must survive a restart
+                let t = node.current_term();
+                m.term = m.term.max(t);
+                if node.state() == RaftState::Candidate && t == cur + 1 {
+                    m.votes.insert(t, ME.to_string());
+                }
+            }
         }
         m
     }
@@ -161,7 +255,11 @@ impl Subject for RaftSubject {
         let h = &states[hi].log;
         let cpl = l.iter().zip(h.iter()).take_while(|(a, b)| a == b).count();
         let is_prefix = |a: &[(u64, u64)], b: &[(u64, u64)]| a.len() <= b.len() && a == &b[..a.len()];
-        let ok = log == *l || (is_prefix(&log, h) && log.len() >= cpl);
+        let via_install = |x: &Vec<(u64, u64)>| {
+            let c = l.iter().zip(x.iter()).take_while(|(a, b)| a == b).count();
+            log == *x || (is_prefix(&log, x) && log.len() >= c)
+        };
+        let ok = log == *l || (is_prefix(&log, h) && log.len() >= cpl) || p.installed.as_ref().is_some_and(via_install) || states[hi].installed.as_ref().is_some_and(via_install);
         if !ok {
             return Err(("acknowledged-entry-lost".into(), format!("recovered log {log:?}; acknowledged log {l:?} (op in progress would give {h:?})")));
         }
@@ -178,10 +276,11 @@ impl Subject for RaftSubject {
         let mut m = p.clone();
         m.term = term;
         m.log = log;
+        m.installed = None;
         Ok(m)
     }
     fn describe(&self, m: &Model) -> String {
-        format!("{}|{:?}|{:?}", m.term, m.votes, m.log.iter().map(|x| x.0).collect::<Vec<_>>())
+        format!("{}|{:?}|{:?}|{:?}", m.term, m.votes, m.log.iter().map(|x| x.0).collect::<Vec<_>>(), m.installed.as_ref().map(|x| x.len()))
     }
 }
 
@@ -196,6 +295,8 @@ fn alphabet(level: u8) -> Vec<Op> {
             Op::Ae { leader: 3, dterm: 0, n: 1, conflict: false },
             Op::Ae { leader: 2, dterm: 1, n: 1, conflict: true },
             Op::Elect,
+            Op::ElectAsyncSendFails,
+            Op::Install { n: 1 },
         ],
         // full
         _ => vec![
@@ -211,6 +312,9 @@ fn alphabet(level: u8) -> Vec<Op> {
             Op::Ack,
             Op::Propose,
             Op::HigherTermResponse,
+            Op::ElectAsyncSendFails,
+            Op::Install { n: 0 },
+            Op::Install { n: 2 },
         ],
     }
 }
